@@ -167,6 +167,69 @@ theorem shapesOk_sound {kind : LockKind} {T : Table} {cbs : List Nat} (h : shape
     intro j hj p hp
     exact okF_sound (F := T.length) h.1 _ j (h.2 j hj) p hp
 
+/-! ### the path finder is sound -/
+
+theorem matchBody_sound {T : Table} {cbs : List Nat} {callee : Nat → List Ev → List (List Ev)}
+    (hc : ∀ j evs rest, rest ∈ callee j evs → ∃ p, Path T cbs (T.body j) p ∧ evs = p ++ rest) :
+    ∀ (body : List Instr) (evs rest : List Ev), rest ∈ matchBody callee body evs →
+      ∃ p, Path T cbs body p ∧ evs = p ++ rest := by
+  intro body
+  induction body with
+  | nil =>
+    intro evs rest h
+    simp only [matchBody, List.mem_singleton] at h
+    exact ⟨[], Path.nil, by simp [h]⟩
+  | cons i r ih =>
+    intro evs rest h
+    cases i with
+    | acq =>
+      cases evs with
+      | nil => simp [matchBody] at h
+      | cons e es =>
+        cases e with
+        | acq =>
+          simp only [matchBody] at h
+          obtain ⟨p, hp, he⟩ := ih es rest h
+          exact ⟨.acq :: p, Path.acq hp, by simp [he]⟩
+        | rel => simp [matchBody] at h
+    | rel =>
+      cases evs with
+      | nil => simp [matchBody] at h
+      | cons e es =>
+        cases e with
+        | rel =>
+          simp only [matchBody] at h
+          obtain ⟨p, hp, he⟩ := ih es rest h
+          exact ⟨.rel :: p, Path.rel hp, by simp [he]⟩
+        | acq => simp [matchBody] at h
+    | cb =>
+      simp only [matchBody] at h
+      obtain ⟨p, hp, he⟩ := ih evs rest h
+      exact ⟨p, Path.cbDone hp, he⟩
+    | call j =>
+      simp only [matchBody, List.mem_append, List.mem_flatMap] at h
+      rcases h with h | ⟨mid, hmid, h⟩
+      · obtain ⟨p, hp, he⟩ := ih evs rest h
+        exact ⟨p, Path.callSkip hp, he⟩
+      · obtain ⟨p1, hp1, he1⟩ := hc j evs mid hmid
+        obtain ⟨p2, hp2, he2⟩ := ih mid rest h
+        exact ⟨p1 ++ p2, Path.callTake hp1 hp2, by rw [he1, he2, List.append_assoc]⟩
+
+theorem matchF_sound {T : Table} {cbs : List Nat} : ∀ (f j : Nat) (evs rest : List Ev),
+    rest ∈ matchF T f j evs → ∃ p, Path T cbs (T.body j) p ∧ evs = p ++ rest := by
+  intro f
+  induction f with
+  | zero => intro j evs rest h; simp [matchF] at h
+  | succ f ih => intro j evs rest h; exact matchBody_sound ih _ _ _ h
+
+theorem hasPath_sound {T : Table} {cbs : List Nat} {name : String} {evs : List Ev} (h : hasPath T name evs = true) :
+    Path T cbs (T.body (T.idx name)) evs := by
+  unfold hasPath at h
+  have hm : [] ∈ matchF T (T.length + 1) (T.idx name) evs := by simpa using h
+  obtain ⟨p, hp, he⟩ := matchF_sound (cbs := cbs) _ _ _ _ hm
+  simp at he
+  rw [he]; exact hp
+
 /-! ### threads -/
 
 def holders (c : List Thr) : Nat := (c.filter fun t => decide (0 < t.depth)).length
